@@ -125,7 +125,10 @@ class FuzzyFinder(object):
         """
         self._subsets = []
         if len(attrs) > 0:
-            self._subsets_util_dfs(0, [], self._subsets, sorted(attrs))
+            # Requested values may be of different Python types (numbers, text),
+            # which cannot be compared with each other: order them by their text.
+            attrs = sorted(attrs, key=lambda pair: (pair[0], pair[1][0], str(pair[1][1])))
+            self._subsets_util_dfs(0, [], self._subsets, attrs)
 
         self._subsets.sort(key=len, reverse=True)
 
